@@ -209,6 +209,13 @@ def decHitranOp (args : List String) : Option String :=
     let tt ← flt
     pure (ciaOut (decHitran blocks) tt)) args
 
+/-- `c14.hitran_unified blocks` → the documented unified table of the file (`Loaders.hitranUnified`, the right-hand
+    side of `Props/C14.lean:hitran_unified`) -/
+def hitranUnifiedOp (args : List String) : Option String :=
+  run (do
+    let blocks ← listOf blockP
+    pure (fCTab (hitranUnified blocks))) args
+
 def fBlock (b : HBlock Float) : String :=
   s!"{fF b.wn0} {fF b.wn1} {fF b.temp} {fF b.maxcia} {fList (fun (q : Float × Float) => s!"{fF q.1} {fF q.2}") b.pts}"
 
@@ -280,7 +287,7 @@ def ops : List Op :=
    ("c14.enc_pickle", encPickleOp), ("c14.enc_hdf", encHdfOp), ("c14.enc_exo", encExoOp),
    ("c14.dec_kpickle", decPickleKOp), ("c14.dec_khdf", decHdfKOp),
    ("c14.enc_kpickle", encPickleKOp), ("c14.enc_khdf", encHdfKOp),
-   ("c14.dec_cia_pickle", decPickleCOp), ("c14.dec_hitran", decHitranOp), ("c14.enc_hitran", encHitranOp),
+   ("c14.dec_cia_pickle", decPickleCOp), ("c14.dec_hitran", decHitranOp), ("c14.hitran_unified", hitranUnifiedOp), ("c14.enc_hitran", encHitranOp),
    ("c14.cache", cacheOp)]
 
 end Taurex.Ops.C14
